@@ -1,4 +1,5 @@
 """C04 — data races on unsynchronised memory are reported exactly."""
+import lvlib
 from gen import litmus, families
 
 
@@ -25,4 +26,36 @@ def run(ctx):
                  "a causality panic iff some reference execution has two conflicting unordered accesses; "
                  "non-trivial = the program has a cell accessed by two threads",
                  nontrivial_fn=lambda p, its, done: "crd" in p or "cwr" in p)
+    path_witnesses(ctx)
     ctx.witness_check()
+
+
+# executions that the exploration itself does not reach first but that a stored path replays: (program, path file,
+# what the reference says about the execution that path encodes)
+PATH_WITNESSES = [
+    # F26 (repaired): two notifiers on one Notify; T1 is preempted inside its own notify() while T0 notifies.  T0's
+    # write and T1's read are unordered (a notification orders nothing for another notifier): a race on this path.
+    ("cfg n=1 c=1 | T0: spawn 1; cwr 0 5; nnotify 0; join 1 | T1: nnotify 0; crd 0", "f26_two_notifiers.json", "causality:9"),
+]
+
+
+def path_witnesses(ctx):
+    import os, shutil, subprocess
+    ckdir = os.path.join(lvlib.BUILD, "ckpt-" + ctx.pid)
+    shutil.rmtree(ckdir, ignore_errors=True)
+    os.makedirs(ckdir)
+    for prog, fname, expect in PATH_WITNESSES:
+        shutil.copy(os.path.join(lvlib.VERIF, "gen", "paths", fname), os.path.join(ckdir, fname))
+        q = prog.replace("cfg ", f"cfg ckpt={fname} ", 1)
+        r = subprocess.run([lvlib.HARNESS_BIN, "run", "--max", "1", "--ckpt-dir", ckdir], input=q + "\n",
+                           stdout=subprocess.PIPE, stderr=subprocess.DEVNULL, text=True)
+        its, done = lvlib.iterations(lvlib._split_records(r.stdout).get(q, []))
+        ctx.cov["traces_validated_against_impl"] += 1
+        got = its[0]["term"] if its else "none"
+        if got != expect:
+            ctx.violation("oracle-missed_failure",
+                          {"outcome": f"the execution encoded by gen/paths/{fname} must end with {expect} (the two accesses "
+                                      f"are unordered in the reference); the implementation ends it with {got}",
+                           "path_file": "gen/paths/" + fname}, found_input=True, program=prog)
+    shutil.rmtree(ckdir, ignore_errors=True)
+    ctx.cov["path_witnesses"] = len(PATH_WITNESSES)
